@@ -12,6 +12,54 @@ CHECKS = {
          'Exploration: every generated nested coordinate array (7 types x 10 layouts x hostile floats) is built through SetCoords, New*Flat, MustSetCoords and Clone on the real code; a well-formedness monitor written from the property and a bit-for-bit comparison with a nested-list model judge each result; wrong-length coordinates are injected at random positions. Holds on the executions observed, which is the right level for a for-all-inputs structural claim over an unbounded input space.',
          'Trusts the Go runtime, the nested-list model and WF monitor in harness/model, and the shape generator reaching the relevant corners (evidence lists the shape signatures seen).',
          '3/C01'),
+ 'C02': ('online checker: executable list model stepped in lock-step with random operation histories; full-state comparison after every step',
+         'Exploration of operation histories: Push / wrong-layout Push / Reverse / Swap / Clone / SetLayout histories on the five multi-part types are executed on the real code while a list model is advanced in lock-step and the whole observable state is compared after every operation; all MultiPolygon push histories of length <=5 over a 4-part alphabet are enumerated.',
+         'Trusts the list model in mon/c02.go and the WF monitor; histories are sampled (lengths to 40/200), only the small MultiPolygon space is exhaustive.',
+         '3/C02'),
+ 'C03': ('differential monitor against an independent reference WKB/EWKB writer and reader; in-process fault injection at the io.Reader/io.Writer boundary',
+         'Exploration with fault enumeration as a sub-workload: encoder bytes are compared with a reference writer written from the ISO/PostGIS specs (pinned by hand-checked vectors), decoders with the model; readers are split four ways incl. zero-length reads, writers fail at every byte position for encodings up to 200 bytes; hex and database/sql wrappers are driven through a full 7x7 type matrix.',
+         'Trusts the reference codec in harness/ref (self-tested against PostGIS/ISO vectors by setup.sh) and the carve-out function decodeExpectation, the only place where format exceptions are encoded.',
+         '3/C03'),
+ 'C08': ('reference-model monitor (min/max by semantic dimension) + enumeration of Extend orders + interval-arithmetic oracle',
+         'Exploration: Bounds() of generated geometries and nested mixed-layout collections is compared with exact min/max from the nested model; every permutation of Extend sequences up to length 5 must produce the model box; Overlaps/OverlapsPoint are compared with closed-interval arithmetic on a small grid.',
+         'Trusts the model box in mon/c08.go; min/max are exact so == is used; NaN ordinates are outside the property.',
+         '3/C08'),
+ 'C09': ('exact-arithmetic oracle (rational shoelace, 400-bit lengths) with a derived forward error bound',
+         'Exploration: Area/Length of generated geometries (all multi-part shapes incl. empty parts, magnitudes 2^-200..2^200, NaN/Inf in extra ordinates) are compared with exact values within (n+8)*2^-52*sum|terms|, additivity over part accessors and zero area of points/lines are checked, panics are violations.',
+         'Trusts math/big; the bound is a stated forward error bound computed by the oracle per case, not a tuned constant.',
+         '3/C09'),
+ 'C10': ('exact rational determinant oracle; exhaustive small grid plus constructed near-degenerate triples',
+         'Exploration with an exhaustive sub-space: every triple of a 7x7 grid in all six argument orders; nearly collinear triples with 49 ulp-neighbours each across magnitudes 1e-100..1e100; integer triples whose product terms exceed 53 bits with determinant in -2..2. The evidence counts how many triples the floating-point filter cannot decide.',
+         'Trusts math/big rational arithmetic.',
+         '3/C10'),
+ 'C11': ('exact integer even-odd/on-edge oracle; exhaustive small grid plus metamorphic variants (reverse, rotate, double vertex, extra ordinates)',
+         'Exploration with exhaustive sub-spaces: all closed rings of 3 and 4 vertices on a 4x4 grid x 16 query points; random rings up to 40 vertices on grids to 2^26 with query points aimed at vertices, vertex-level rays and lattice points on edges, each also in four transformed presentations; IsOnLine/PointIntersectsLine against the exact on-segment test incl. float inputs.',
+         'Trusts int64 arithmetic (exact below 2^26 grids) and math/big for float cases.',
+         '3/C11'),
+ 'C12': ('exact rational classification and intersection oracle; exhaustive small grid; all 8 symmetric presentations per pair',
+         'Exploration with an exhaustive sub-space: all 57,600 ordered pairs of non-degenerate segments on a 4x4 grid; constructed configurations on grids to 2^20; endpoint meetings must be exact, proper crossings within a derived forward bound and inside both envelopes, overlaps exact; the non-robust strategy must agree on HasIntersection for integer inputs; float pairs a few ulps away are checked for classification.',
+         'Trusts math/big; the location bound 64*2^-53*S^3/|d1xd2| is derived from the homogeneous-coordinate formula.',
+         '3/C12'),
+ 'C13': ('exact integer monotone-chain oracle with provenance ids in extra ordinates; exhaustive small grid',
+         'Exploration with an exhaustive sub-space: every sequence of 1..5 points on a 3x3 grid; random multisets of 1..200 points in eight degeneracy classes with sizes around the 50-point switch over-weighted; vertex set, provenance, closure, strict convexity, result type and input immutability are all checked.',
+         'Trusts int64 arithmetic on grids up to 2^20.',
+         '3/C13'),
+ 'C14': ('exact rational / 400-bit centroid and area oracles with derived forward bounds on constructed simple polygons',
+         'Exploration: simple rings by construction (exact angular order; rectilinear staircases with top ties and repeated vertices), polygons with holes and disjoint multipolygon members at offsets up to 1e9, zero-area fallbacks, polylines and point sets; every result is compared with the exact value within a bound computed from the same fan decomposition.',
+         'Trusts math/big and the simplicity-by-construction of the generated rings.',
+         '3/C14'),
+ 'C15': ('exact rational squared-distance oracle (3D via exact minimisation over the parameter square); 8 presentations per pair',
+         'Exploration: seven distance functions on integer grids to 2^20 across degenerate, parallel, collinear, crossing, touching and skew classes, every segment pair in all 8 argument orders, NaN never accepted; tolerance 1e-9 x coordinate scale as the property states.',
+         'Trusts math/big; near-parallel (not parallel) 3D pairs are judged only on grids <= 2^8 (stated in the evidence counters).',
+         '3/C15'),
+ 'C16': ('deep bitwise snapshot invariant checked after every step of random mutation histories on original, clone and clone-of-clone',
+         'Exploration of mutation histories: three aliases of each generated geometry (exact, spare-capacity and empty-non-nil storage) are mutated in random order by ten kinds of mutation; after every step the two untouched ones must still match their snapshot.',
+         'Trusts the snapshot code (length-and-bits comparison); Reverse on NoLayout line geometries is not driven (it does not terminate and no property covers it).',
+         '3/C16'),
+ 'C20': ('exact rational point-segment distance oracle + structural checks + idempotence + projection metamorphic check',
+         'Exploration with an exhaustive sub-space: random sequences of 0..200 points in seven shape classes x five threshold classes, plus every sequence of up to 6 points on a 3x3 grid (thorough) x four thresholds; dropped points are judged by exact distance, threshold 0 requires exact collinearity, a second pass must drop nothing, extra ordinates must not matter.',
+         'Trusts math/big; the slack tau*(1+2^-50)+2^-46*max|ordinate| is the derived rounding allowance of the double evaluation.',
+         '3/C20'),
 }
 
 PLANNED = ['C%02d' % i for i in range(1, 21)]
